@@ -3,6 +3,7 @@ mod util;
 mod cli;
 mod c17;
 mod delta;
+mod c20;
 
 fn main() {
     let mut it = std::env::args().skip(1);
@@ -14,6 +15,7 @@ fn main() {
         "c01" => delta::main_pairs(args, "c01"),
         "c16" => delta::main_pairs(args, "c16"),
         "c05" => delta::main_c05(args),
+        "c20" => c20::main(args),
         _ => {
             eprintln!("unknown command {cmd}");
             2
